@@ -134,7 +134,7 @@ func c18GenRecord(t *rapid.T) c18Rec {
 		return c18Rec{controlTypeFileResumeInfo, FileResumeInfo{
 			FileID:   string(c18Bytes(t, "fileid", []int{0, 1, 16, 255, 256, 65535}, 65535)),
 			StreamID: c18U64.Draw(t, "sid"), TotalChunks: c18U32.Draw(t, "total"),
-			Bitmap:            c18Bytes(t, "bitmap", []int{0, 1, 7, 8, 9, 4096, 1 << 20}, 1<<20),
+			Bitmap:            c18Bytes(t, "bitmap", []int{0, 1, 7, 8, 9, 4096, 65535, 65536, 65537, 131071, 131072, 131073, 196608, 1 << 20}, 1<<20),
 			LastVerifiedChunk: c18U32.Draw(t, "lvc"), LastVerifiedHash: c18U64.Draw(t, "lvh"),
 		}}
 	case 6:
